@@ -302,6 +302,68 @@ pub fn interval(args: &[String]) {
             k += 1;
         }
     }
+    // C03: a chirp y' = 10 x cos(5 x^2) (y = sin(5 x^2)) over many interval lengths at a loose tolerance: the step that lands on xend
+    // is often rejected; the run must still cover the whole interval before it reports Success (a landing flag that survives
+    // the rejection ends the run early with the time set to xend and the state of a shorter step)
+    {
+        struct Chirp;
+        impl IVP for Chirp { fn ode(&self, x: f64, _y: &[f64], d: &mut [f64]) { d[0] = 10.0 * x * (5.0 * x * x).cos(); } }
+        let mut k = 0;
+        for method in ADAPTIVE {
+            let (mut bad, mut worst, mut wx, mut runs) = (0usize, 0.0f64, 0.0f64, 0usize);
+            for j in 0..80 {
+                let xend = 1.0 + 3.0 * (j as f64) / 80.0 + 0.0137;
+                for back in [false, true] {
+                    let (a, b) = if back { (xend, 0.0) } else { (0.0, xend) };
+                    let o = Options::builder().method(method).rtol(1e-4).atol(1e-6).build();
+                    if let Ok(Ok(sol)) = catch_unwind(AssertUnwindSafe(|| solve_ivp(&Chirp, a, b, &[(5.0 * a * a).sin()], o))) {
+                        runs += 1;
+                        if sol.status == Status::Success {
+                            let e = (sol.y.last().unwrap()[0] - (5.0 * b * b).sin()).abs();
+                            if e > worst { worst = e; wx = xend; }
+                            if e > 0.05 { bad += 1; }
+                        }
+                    }
+                }
+            }
+            let (mut why, mut key) = (String::new(), "");
+            if bad > 0 { key = "c03-success-short-step"; why = format!("chirp y' = 10 x cos(5 x^2): {} of {} successful runs end with an error above 0.05 at xend (worst {:.3} for the interval of length {}): Success without having covered the interval", bad, runs, worst, wx); }
+            println!("{{\"kind\":\"iv\",\"case\":{},\"problem\":\"chirp\",\"method\":\"{}\",\"branch\":\"chirp-landing\",\"finding_key\":\"{}\",\"runs\":{},\"worst_error\":{},\"ok\":{},\"why\":{:?}}}",
+                560000 + k, method_name(method), key, runs, jnum(worst), why.is_empty(), why);
+            k += 1;
+        }
+    }
+    // C11 far from the origin (|x| = 2^40, one ulp = 2^-12): first_step = max_step = 1/8 and a remainder a little above 1 % of
+    // max_step — the landing stretch must be measured against the step, not against the size of x (all values dyadic: exact)
+    {
+        let mut k = 0;
+        for method in ADAPTIVE {
+            for (x0, sgn) in [(1_099_511_627_776.0f64, 1.0f64), (-1_099_511_627_776.0, -1.0), (1_099_511_627_780.0, -1.0)] {
+                for rem in [0.140625f64, 0.1298828125, 0.126953125] {
+                    let xend = x0 + sgn * (10.0 * 0.125 + rem);
+                    let c = Cfg { kind: Kind::Slow, method, x0, xend, rtol: 1e-3, atol: 1e-6, first: Some(0.125), maxstep: Some(0.125), nmax: None };
+                    let p = Prob { user_jac: true, ..Prob::new(Kind::Slow) };
+                    let (mut why, mut key, mut extra) = (String::new(), "", String::new());
+                    match catch_unwind(AssertUnwindSafe(|| solve_ivp(&p, x0, xend, &p.y0(), c.opts()))) {
+                        Ok(Ok(sol)) => {
+                            extra = format!("\"status\":\"{:?}\",\"n\":{},", sol.status, sol.t.len());
+                            let m = sol.t.len();
+                            for j in 1..m {
+                                let len = (sol.t[j] - sol.t[j - 1]).abs();
+                                let lim = if j == m - 1 { 1.01 * 0.125 } else { 0.125 };
+                                if len > lim { key = "c11-max-step"; why = format!("|x| = 2^40: reported interval {} of {} has length {} > {} (max_step 0.125, remainder {})", j, m - 1, len, lim, rem); break; }
+                            }
+                            if why.is_empty() && sol.status == Status::Success && sol.t.last() != Some(&xend) { key = "c03-success-not-reached"; why = format!("Success but the last sample is {:?}", sol.t.last()); }
+                        }
+                        Ok(Err(_)) => { extra = "\"status\":\"Err\",".into(); }
+                        Err(_) => { key = "c04-hang-or-panic"; why = "solve_ivp panicked".into(); }
+                    }
+                    out("iv", 550000 + k, &c, "far-origin-max-step", key, &why, &extra);
+                    k += 1;
+                }
+            }
+        }
+    }
     // C18 where the corrector struggles: right-hand sides that leave their domain (sqrt, ln), a solution that overflows, a
     // loose tolerance (one or two Newton iterations), a Newton iteration limit of 1 (low-level BDF) — every exit of the
     // Newton loop must leave nfev equal to the number of right-hand-side calls (calls made while differencing excluded)
@@ -358,6 +420,14 @@ pub fn interval(args: &[String]) {
                                 why = format!("Success but the last sample is t = {:?} (xend = {:?}, {} samples): first_step = {} covers the interval", last, xend, sol.t.len(), span * mult);
                             }
                             if let Some(t) = sol.t.iter().find(|t| (**t - xend) * span.signum() > 0.0) { key = "c03-overshoot"; why = format!("sample time {:?} lies beyond xend = {:?} (first_step = {})", t, xend, span * mult); }
+                            // ... and the state reported there is the solution at xend, not that of a shorter, retried step
+                            if why.is_empty() && sol.status == Status::Success {
+                                // (the closed-form solutions of the test problems start at x0 = 0)
+                                if let Some(ex) = if x0 == 0.0 { p.exact(xend) } else { None } {
+                                    let e = (0..ex.len()).map(|i| (sol.y.last().unwrap()[i] - ex[i]).abs()).fold(0.0, f64::max);
+                                    if e > 0.02 { key = "c03-success-short-step"; why = format!("Success at xend = {:?} with a state off by {:.3} (first_step = {} covers the interval; {} samples): the interval was not covered", xend, e, span * mult, sol.t.len()); }
+                                }
+                            }
                         }
                     }
                     out("iv", 300000 + k, &c, "first-step-covers-span", key, &why, &extra);
@@ -960,6 +1030,18 @@ pub fn protocol(args: &[String]) {
             let rtol = if case / 20 == 0 { 1e-3 } else { 1e-6 };
             c = Cfg { kind: Kind::Slow, method: m, x0: if back { 2.0 } else { 0.0 }, xend: if back { 0.0 } else { 2.0 }, rtol, atol: rtol * 1e-3, first: None, maxstep: Some(ms), nmax: None };
         }
+        // cases 72..92: a first step that covers the whole interval (the landing step is the first trial step and is rejected):
+        // every adaptive method, both directions, two problems — the callbacks must still announce the intervals their
+        // interpolants belong to
+        let directed4 = case >= 72 && case < 92;
+        if directed4 {
+            let q = case - 72;
+            let m = [Method::RK23, Method::DOPRI5, Method::DOP853, Method::RADAU, Method::BDF][q % 5];
+            let back = (q / 5) % 2 == 1;
+            let kind = if q / 10 == 0 { Kind::Harmonic } else { Kind::VdP };
+            let sp = if q / 10 == 0 { 5.0 } else { 3.0 };
+            c = Cfg { kind, method: m, x0: 0.0, xend: if back { -sp } else { sp }, rtol: 1e-6, atol: 1e-9, first: Some(if back { -1.5 * sp } else { 1.5 * sp }), maxstep: None, nmax: None };
+        }
         // cases 52..72: the same sweep on a tiny time scale, max_step below every built-in default first step
         let directed3 = case >= 52 && case < 72;
         if directed3 {
@@ -971,13 +1053,13 @@ pub fn protocol(args: &[String]) {
         let span = (c.xend - c.x0).abs();
         if span < 1e-6 || span > 10.0 { continue; }
         let sgn = (c.xend - c.x0).signum();
-        if !directed && !directed2 && !directed3 {
+        if !directed && !directed2 && !directed3 && !directed4 {
             if rng.chance(0.3) { c.maxstep = Some(span * rng.range(0.004, 0.05)); }
             // C11 uses well-formed limits only
             c.first = if rng.chance(0.5) { Some(sgn * span * rng.range(0.001, 0.05)) } else { None };
             if let (Some(f), Some(m)) = (c.first, c.maxstep) { if f.abs() > m { c.first = Some(sgn * m * 0.5); } }
         }
-        let linear = directed || directed3 || (!directed2 && rng.chance(0.4));
+        let linear = directed || directed3 || (!directed2 && !directed4 && rng.chance(0.4));
         if linear && !directed && !directed3 { c.kind = *rng.pick(&[Kind::Harmonic, Kind::Decay3, Kind::Slow]); }
         let mut p = Prob::new(c.kind);
         p.record_times = true;
@@ -1000,6 +1082,13 @@ pub fn protocol(args: &[String]) {
                 if (b.x - b.xold) * sgn <= 0.0 { fail("c19-direction", format!("callback {}: interval [{}, {}] does not advance", k, b.xold, b.x), &mut why, &mut key); }
                 if (b.x - c.xend) * sgn > 4.0 * f64::EPSILON * c.xend.abs().max(c.x0.abs()) { fail("c03-overshoot", format!("callback {}: x = {} lies beyond xend = {}", k, b.x, c.xend), &mut why, &mut key); }
                 if !b.has_interp { fail("c19-interpolant", format!("callback {} has no interpolant", k), &mut why, &mut key); }
+                // "an interpolant valid on that interval": at the right end of the announced interval it returns the state passed
+                // with it (an interpolant built for a shorter step extrapolates there).  The left end is C06's business (dense-check).
+                if b.has_interp && b.samples.len() == 5 && rec.script.is_empty() {
+                    let scale = b.y.iter().fold(1.0f64, |m, x| m.max(x.abs()));
+                    let d1 = b.y.iter().zip(b.samples[4].iter()).map(|(u, v)| (u - v).abs()).fold(0.0, f64::max);
+                    if d1 > 1e-6 * scale { fail("c19-interpolant-ends", format!("callback {}: the interpolant at x = {} differs from the state passed by {:.3e}: it is not the interpolant of [{}, {}]", k, b.x, d1, b.xold, b.x), &mut why, &mut key); }
+                }
             }
             if base.status == Status::Success && (rec.cbs[ncb - 1].x - c.xend).abs() > 1e-12 * (1.0 + c.xend.abs()) { fail("c03-success-not-reached", format!("Success but the last callback is at x = {} (xend = {})", rec.cbs[ncb - 1].x, c.xend), &mut why, &mut key); }
             if base.steps.accepted != ncb - 1 { fail("c18-naccpt", format!("steps.accepted = {} but {} per-step callbacks were made", base.steps.accepted, ncb - 1), &mut why, &mut key); }
@@ -1012,7 +1101,8 @@ pub fn protocol(args: &[String]) {
                 let lim = if k == ncb - 1 { 1.01 * hmax } else { hmax };
                 if len > lim * (1.0 + 1e-12) { fail("c11-max-step", format!("accepted step {} has length {} > max_step {}", k, len, hmax), &mut why, &mut key); }
             }
-            if let Some(h0) = c.first {
+            // (C11's precondition: a first_step not larger than max_step or the span)
+            if let Some(h0) = c.first.filter(|h| h.abs() <= span) {
                 // the first trial step: some early evaluation must sit at x0 + c*h0 for the method's first node
                 let cn = match c.method { Method::RK4 => 0.5, Method::RK23 => 0.5, Method::DOPRI5 => 0.2, Method::DOP853 => 0.526001519587677318785587544488e-01, Method::RADAU => 0.155_051_025_721_682_2, Method::BDF => 1.0 };
                 let want = c.x0 + cn * h0;
